@@ -1502,6 +1502,93 @@ impl Scenario for FlexScen {
     fn apply(&mut self, op: &str) -> Vec<String> {
         self.apply_inner(op)
     }
+
+    /// Small scope: group p0:1, p1:1, p2:2 (total 4) administered by p0, p3 joins / p5 never does, height-based
+    /// maximal voting period of 2 blocks.  The prefix instantiates the world and moves to the next block H (nobody
+    /// has a snapshot weight in the instantiation block).  Op lines are fixed strings and `env` lines are absolute, so
+    /// there is ONE `env` line (to H+1; a second one would let sequences run backwards in time, which no chain does
+    /// and which the snapshot monitors rightly flag): proposals with `latest` = H+1 are expired after it, proposals
+    /// with the default expiry (H+2) are still open in it, and a proposal made in H+1 with `latest` = H+1 is created
+    /// already expired.
+    ///   variant 0: AbsoluteCount 2, no deposit, treasury of 2 ucosm
+    ///   variant 1: AbsolutePercentage 50 %, refundable native deposit of 1 ucosm, EMPTY treasury (the multisig
+    ///              holds exactly the deposits taken; a proposal spends the deposit denom)
+    ///   variant 2: ThresholdQuorum 50 % / 50 %, executor = member, no deposit, treasury of 2 ucosm (one proposal
+    ///              sends more than the treasury holds)
+    ///   variant 3: AbsoluteCount 2, the multisig is registered as hook of the group (every group update calls it)
+    ///              and also receives `member_changed_hook` directly from the group address; treasury of 2 ucosm
+    fn small_scope(&mut self, variant: u64) -> Option<SmallScope> {
+        if self.wide || variant > 3 {
+            return None;
+        }
+        const HALF: u128 = 500_000_000_000_000_000;
+        let p = self.pool.clone();
+        let (p0, p1, p2, p3, p4, p5) = (&p[0], &p[1], &p[2], &p[3], &p[4], &p[5]);
+        let (group, flex) = (self.group.clone(), self.flex.clone());
+        let h = self.block.height + 1; // the block the prefix moves to
+        let t = self.block.time.nanos() + 5_000_000_000;
+        let (thr, hook, executor, dep, treasury) = match variant {
+            0 => ("count:2".to_string(), 0, "-", "-", 2),
+            1 => (format!("pct:{HALF}"), 0, "-", "native:ucosm:1:1", 0),
+            2 => (format!("quorum:{HALF}:{HALF}"), 0, "member", "-", 2),
+            _ => ("count:2".to_string(), 1, "-", "-", 2),
+        };
+        let mut bank: Vec<String> = p.iter().map(|a| format!("{a}:3:0")).collect();
+        bank.push(format!("{flex}:{treasury}:0"));
+        let cw20bal: Vec<String> = p.iter().map(|a| format!("{a}:0")).collect();
+        let inst = format!(
+            "inst members=+{p0}:1,+{p1}:1,+{p2}:2 admin={p0} hook={hook} thr={thr} period=h2 executor={executor} deposit={dep} bank={} cw20bal={}",
+            bank.join(","),
+            cw20bal.join(",")
+        );
+        let prefix = vec![inst, format!("env height={h} time={t}")];
+        let short = format!("h{}", h + 1);
+        let mut al = vec![
+            format!("group {p0} update_members add=+{p1}:0 remove="),
+            format!("group {p0} update_members add=+{p3}:1 remove="),
+            format!("group {p0} update_members add= remove=+{p2}"),
+        ];
+        match variant {
+            0 => al.extend([
+                format!("exec {p0} propose title=T0 desc=D0 msgs=- latest={short} funds=-"),
+                format!("exec {p0} propose title=T0 desc=D0 msgs=self/execute/1 latest=- funds=1ucosm"),
+                format!("exec {p1} propose title=T1 desc=D0 msgs=bank/{p4}/1ucosm latest=- funds=-"),
+                format!("exec {p3} propose title=T2 desc=D0 msgs=- latest=- funds=-"),
+            ]),
+            1 => al.extend([
+                format!("exec {p0} propose title=T0 desc=D0 msgs=- latest={short} funds=1ucosm"),
+                format!("exec {p0} propose title=T0 desc=D0 msgs=- latest=- funds=-"),
+                format!("exec {p0} propose title=T0 desc=D0 msgs=- latest=- funds=2ucosm"),
+                format!("exec {p1} propose title=T1 desc=D0 msgs=bank/{p4}/1ucosm latest=- funds=1ucosm"),
+                format!("exec {p3} propose title=T2 desc=D0 msgs=- latest=- funds=1ucosm"),
+            ]),
+            2 => al.extend([
+                format!("exec {p0} propose title=T0 desc=D0 msgs=- latest={short} funds=-"),
+                format!("exec {p1} propose title=T1 desc=D0 msgs=bank/{p4}/1ucosm latest=- funds=-"),
+                format!("exec {p1} propose title=T1 desc=D0 msgs=bank/{p4}/3ucosm latest=- funds=-"),
+                format!("exec {p3} propose title=T2 desc=D0 msgs=- latest=- funds=-"),
+            ]),
+            _ => al.extend([
+                format!("exec {p0} propose title=T0 desc=D0 msgs=- latest={short} funds=-"),
+                format!("exec {p1} propose title=T1 desc=D0 msgs=bank/{p4}/1ucosm latest=- funds=-"),
+                format!("exec {p3} propose title=T2 desc=D0 msgs=- latest=- funds=-"),
+                format!("exec {group} member_changed_hook"),
+            ]),
+        }
+        al.extend([
+            format!("exec {p1} vote id=1 vote=yes"),
+            format!("exec {p1} vote id=1 vote=no"),
+            format!("exec {p2} vote id=1 vote=yes"),
+            format!("exec {p2} vote id=1 vote=no"),
+            format!("exec {p2} vote id=2 vote=yes"),
+            format!("exec {p3} vote id=1 vote=yes"),
+            format!("exec {p0} execute id=1"),
+            format!("exec {p5} execute id=1"),
+            format!("exec {p0} close id=1"),
+            format!("env height={} time={}", h + 1, t + 5_000_000_000),
+        ]);
+        Some(SmallScope { prefix, alphabet: al })
+    }
 }
 
 impl FlexScen {
